@@ -22,7 +22,12 @@ NONTRIVIAL_RULE = ('strings and lists over alphabets of 1..12 symbols (single ch
                    '(and with a second array passed in between), each call compared with the model on the contents at that time; non-trivial = the call returned a finite double whose model value is not 0 '
                    '(at least two distinct symbols somewhere), or was rejected by the guard; distinct = distinct case dicts')
 EXHAUSTIVE = {'quick': False, 'thorough': False}
-NOTES = ['every temporal distance from -1 to max(T,N)+1 is swept for every generated automaton',
+NOTES = ['float(\'nan\') OBJECTS in lists: shannon_entropy works by identity (dict.fromkeys / list.count), so each nan object is one symbol '
+         '(mirrored: shannon/list/nan_objects); joint_shannon_entropy compares with == (never true for nan) and drops those pairs, so '
+         'mutual_information([n, n], [1, 2]) = 1.0: joint / MI with nan objects have no symbol model and are outside',
+         'temporal distance objects: Python int, np.int8/int16/int64/uint8 scalars and 0-d arrays; T > 32767 (int16 overflow) is not '
+         'generated (the enclosure of an entropy over n = 32768 costs n logarithms)',
+         'every temporal distance from -1 to max(T,N)+1 is swept for every generated automaton',
          'a float temporal_distance (d = 1.0) passes the guard and then raises TypeError in the slicing: temporal distances are '
          'integers in the property; not a case',
          'list symbols follow Python ==/hash (what dict.fromkeys, set, list.count and object-array == use): 1, 1.0 and True are one '
@@ -31,8 +36,11 @@ NOTES = ['every temporal distance from -1 to max(T,N)+1 is swept for every gener
          'the exact layer is taken FROM /repo: the arguments of math.log / np.log2 are spied during the call and turned back into '
          'multiplicities (compared up to order inside Coq); if a refactoring stops using these calls the double alone is compared',
          'tolerance of the float comparison: 2^-30 around the real value enclosed at 80 bits (within_sound)']
-ASSUMPTIONS = ['float- and bool-typed automata are carried to the model as the symbols str(x) of their states, renamed injectively to integers '
-               '(entropy is invariant under injective renaming: H_map_inj); -0.0 and nan states are not generated',
+ASSUMPTIONS = ['lists holding float(\'nan\') OBJECTS: only shannon_entropy is modelled (identity: each object one symbol); joint_shannon_entropy / '
+               'mutual_information on nan objects are outside (the library functions disagree with each other there)',
+               'float- and bool-typed automata are carried to the model as the symbols str(x) of their states, renamed injectively to integers '
+               '(entropy is invariant under injective renaming: H_map_inj); nan is ONE symbol (\'nan\'), -0.0 and 0.0 are two (\'-0.0\', \'0.0\'), '
+               'as str(x) says',
                'the laws of mutual information (symmetric, >= 0, MI(X,X) = H(X)) and H >= 0 are theorems about the REAL-VALUED definitions; the '
                'returned doubles can break each of them by an ulp (mutual_information(\'1000101011\',\'0122111022\') = -4.4e-16) and are '
                'shown only to lie within 2^-30 of the reals (C16_mi_double_lower / C16_mi_double_symm state what follows for the doubles)',
@@ -79,6 +87,8 @@ def _enc(x):
     they are equal as numbers (1 == 1.0 == True), and never equal to a str."""
     if isinstance(x, str):
         return [0] + [ord(ch) for ch in x]
+    if isinstance(x, dict):      # {'nan': k}: the k-th float('nan') OBJECT of the case (shannon_entropy works by identity)
+        return [2, x['nan']]
     q = Fraction(x)          # exact for bool, int and finite float
     return [1, q.numerator, q.denominator]
 
@@ -103,6 +113,7 @@ def ccell(c):
 def ref_counts(seq):
     d = {}
     for x in seq:
+        x = ('nan object', x['nan']) if isinstance(x, dict) else x
         d[x] = d.get(x, 0) + 1
     return list(d.values())          # first-occurrence order
 
@@ -228,15 +239,45 @@ DTYPE_FAMILIES = {
 }
 
 
+def _symrows(c):
+    """the automaton as the symbols the property speaks of: str(x) of each state, as the array's dtype prints it"""
+    if c.get('dtype', 'int64') == 'int64':
+        return [[str(x) for x in row] for row in c['rows']]
+    import numpy as np
+    with np.errstate(all='ignore'):
+        return [[str(x) for x in row] for row in np.array(c['rows'], dtype=c['dtype'])]
+
+
+SPECIALS = [float('nan'), float('inf'), float('-inf'), -0.0, 0.0, 1e-320, 1e300, 1.0, 0.1, 0.5, -1.0, 65504.0, 6e-8]
+
+
+def _special_automaton(rng, T, N, dtype):
+    cols = []
+    for j in range(N):
+        pat = rng.choice(['const_nan', 'nan_zero', 'negzero_zero', 'nan_negzero_zero', 'mix', 'mix', 'inf'])
+        if pat == 'const_nan':
+            col = [float('nan')] * T
+        elif pat == 'nan_zero':
+            col = [float('nan') if t % 2 == 0 else 0.0 for t in range(T)]
+        elif pat == 'negzero_zero':
+            col = [-0.0 if t % 2 == 0 else 0.0 for t in range(T)]
+        elif pat == 'nan_negzero_zero':
+            col = [[float('nan'), -0.0, 0.0][t % 3] for t in range(T)]
+        elif pat == 'inf':
+            col = [rng.choice([float('inf'), float('-inf'), 1e300, -1e300]) for _ in range(T)]
+        else:
+            col = [rng.choice(SPECIALS) for _ in range(T)]
+        cols.append(col)
+    return [[cols[j][t] for j in range(N)] for t in range(T)]
+
+
 def _zrows(c):
     """the automaton as integer symbols for the model: int64 states as they are; float / bool states are replaced by
     the index of their str() rendering (first occurrence), an injective renaming of the symbols str(x)"""
     if c.get('dtype', 'int64') == 'int64':
         return c['rows']
-    import numpy as np
-    arr = np.array(c['rows'], dtype=c['dtype'])
     ids = {}
-    return [[ids.setdefault(str(x), len(ids)) for x in row] for row in arr]
+    return [[ids.setdefault(x, len(ids)) for x in row] for row in _symrows(c)]
 
 
 def _automaton(rng, T, N, fam):
@@ -304,6 +345,32 @@ def _generate(rng, tier):
             for d in range(0, T + 1):
                 verdict = 'accepted' if 0 < d < T else 'rejected'
                 yield {'kind': 'ami/dtype/%s/%s' % (fam, verdict), 'op': 'ami', 'rows': rows, 'd': d, 'fam': fam, 'dtype': dtype}
+    # special float states: nan (ONE symbol 'nan'), inf, -inf, -0.0 next to 0.0 (two symbols), subnormal, huge; float32 / float16
+    for k in range(36 if tier == 'quick' else 200):
+        dtype = ['float64', 'float64', 'float32', 'float16'][k % 4]
+        T, N = rng.choice([(4, 3), (5, 4), (3, 6), (6, 6), (8, 2), (2, 5)])
+        rows = _special_automaton(rng, T, N, dtype)
+        yield {'kind': 'ace/special/%s' % dtype, 'op': 'ace', 'rows': rows, 'fam': 'special', 'dtype': dtype}
+        for d in range(0, T + 1):
+            verdict = 'accepted' if 0 < d < T else 'rejected'
+            yield {'kind': 'ami/special/%s/%s' % (dtype, verdict), 'op': 'ami', 'rows': rows, 'd': d, 'fam': 'special', 'dtype': dtype}
+    # shannon_entropy on lists holding float('nan') OBJECTS: identity decides (one object = one symbol)
+    for k in range(24 if tier == 'quick' else 100):
+        alpha = [{'nan': 0}, {'nan': 1}, 0.0, 1.0, 'nan', 2][:rng.randint(1, 6)]
+        yield {'kind': 'shannon/list/nan_objects', 'op': 'shannon', 'form': 'list', 'X': _seq(rng, alpha, rng.randint(1, 20), False)}
+    # the temporal distance handed over as different integer objects, on short and long automata
+    d_rows = {T: _automaton(rng, T, 2, 'i_012') for T in
+              ([6, 127, 128, 129, 200] if tier == 'quick' else [6, 127, 128, 129, 200, 255, 256, 257])}
+    for d_type, T in [(dt, T) for uns in (False, True) for T in d_rows for dt in D_TYPES if ('uint' in dt) == uns]:
+        rows = d_rows[T]
+        for _once in (0,):
+            bits = {'int8': (-128, 127), 'int16': (-2 ** 15, 2 ** 15 - 1), 'uint8': (0, 255)}.get(d_type.replace('arr0_', ''), (-2 ** 63, 2 ** 63 - 1))
+            for d in sorted({1, 2, T - 2, T - 1, min(T - 1, 127), 0, T, T + 1, -1}):
+                if not (bits[0] <= d <= bits[1]):
+                    continue
+                verdict = 'accepted' if 0 < d < T else 'rejected'
+                c = {'kind': 'ami/dtype_of_d/%s/%s' % (d_type, verdict), 'op': 'ami', 'rows': rows, 'd': d, 'd_type': d_type, 'fam': 'i_012'}
+                yield c      # unsigned d: regression cases of fix 139a98b (-np.uint8(1) wrapped to 255)
     n_seq = 100 if tier == 'quick' else 800
     for i in range(n_seq):
         yield _sequence_case(rng, ['edit', 'edit', 'edit', 'other', 'other', 'noedit'][i % 6])
@@ -402,7 +469,10 @@ def _step_cases(c):
 
 # ---------------------------------------------------------------- implementation runner
 def _arg(seq, form):
-    return ''.join(seq) if form == 'str' else list(seq)
+    if form == 'str':
+        return ''.join(seq)
+    nans = {}
+    return [nans.setdefault(x['nan'], float('nan')) if isinstance(x, dict) else x for x in seq]
 
 
 SPY_STATS = {'spied': 0, 'fallback': 0}
@@ -484,6 +554,20 @@ def _call(op, n, ncols, fn):
     return [r[0], r[1], cells]
 
 
+D_TYPES = ['int', 'int8', 'int16', 'uint8', 'int64', 'arr0_int8', 'arr0_int64', 'arr0_uint8']
+
+
+def _mk_d(c):
+    """the temporal distance as the kind of integer object the case names"""
+    import numpy as np
+    t = c.get('d_type', 'int')
+    if t == 'int':
+        return c['d']
+    if t.startswith('arr0_'):
+        return np.array(c['d'], dtype=t[5:])
+    return getattr(np, t)(c['d'])
+
+
 def run_impl(c):
     import warnings
     import numpy as np
@@ -516,7 +600,7 @@ def run_impl(c):
         T, N = len(rows), len(rows[0])
         if op == 'ace':
             return _call(op, T, N, lambda: cpl.average_cell_entropy(np.array(rows, dtype=c.get('dtype', 'int64'))))
-        return _call(op, T - c['d'], N, lambda: cpl.average_mutual_information(np.array(rows, dtype=c.get('dtype', 'int64')), c['d']))
+        return _call(op, T - c['d'], N, lambda: cpl.average_mutual_information(np.array(rows, dtype=c.get('dtype', 'int64')), _mk_d(c)))
 
 
 def _series(rows, i):
@@ -565,7 +649,7 @@ def _ref_cells(c):
         return [[[], [], ref_joint(c['X'], c['Y']), len(c['X'])]]
     if op == 'mi':
         return [ref_cell(c['X'], c['Y'])]
-    rows = c['rows']
+    rows = _symrows(c)
     T, N = len(rows), len(rows[0])
     if op == 'ace':
         return [[ref_counts(_series(rows, i)), [], [], T] for i in range(N)]
@@ -583,7 +667,7 @@ def _ref_value(c):
     if op == 'mi':
         cx, cy, cxy, n = ref_cell(c['X'], c['Y'])
         return ref_H(cx, n) + ref_H(cy, n) - ref_H(cxy, n)
-    rows = c['rows']
+    rows = _symrows(c)
     T, N = len(rows), len(rows[0])
     if op == 'ace':
         return sum(ref_H(ref_counts(_series(rows, i)), T) for i in range(N)) / N
